@@ -346,6 +346,8 @@ func c08Alphabet() []Operand {
 		for _, ex := range []int32{-2001, -8, -1, 0, 1, 6, -3, 9, 10} {
 			out = append(out, Fin(0, ex, neg))
 		}
+		// zeros whose coefficient is heap-backed (left behind by in-place cancellation of a >128-bit value)
+		out = append(out, DecJ{Coef: "0", Neg: neg, Heap: true}.Op(), DecJ{Coef: "0", Exp: -2, Neg: neg, Heap: true}.Op())
 		for _, j := range []DecJ{{Coef: "1"}, {Coef: "5", Exp: -1}, {Coef: "7", Exp: 3}, {Coef: "3"}, {Coef: "4"}, {Coef: "25", Exp: -1}, {Coef: "12345", Exp: -2}, {Coef: "10", Exp: -1}, {Coef: "2"}, {Coef: "99999", Exp: 0}} {
 			j.Neg = neg
 			out = append(out, j.Op())
